@@ -8,6 +8,12 @@ CLAIMED = {
  "C15": dict(cat="proof", tech="Lean 4 theorems (tryFrom_ok_iff, tryFrom_accessors, predictedWeekday_correct) about a hand model + exhaustive correspondence with DateTime::try_from",
              text="Lean proof that the model of try_from accepts exactly the values whose bit fields are a real calendar instant (for all 2^32 values, via field decomposition and a kernel-evaluated 256-year table), that accessors return the bit fields and the integer form is unchanged; the model is tied to the Rust code by a correspondence sweep that is exhaustive over all (year,month,day,weekday) x 16 time corners (quick) or over all 2^32 values (thorough).",
              note="Trusted: Lean kernel, the hand transcription of try_from (validated exhaustively against the implementation in thorough tier), calendar anchor 2000-01-01 = Saturday, compiled Lean driver and Rust harness for the sweep.", ref="§4 C15"),
+ "C11": dict(cat="proof", tech="Lean 4 theorems about a verified table checker (enumOk) evaluated on every generated enum re-extracted from the source + public-API correspondence",
+             text="Lean theorems (fromInt_correct, roundtrip, variants_correct, tryFrom_correct) show that a `true` verdict of enumOk means: conversion succeeds exactly for declared values, from every source integer type by numeric value (same-width other-signedness bitwise), names the right enumerator, round-trips, and reports the offending value — for all integers. The translator re-extracts all ~300 generated enums from /repo on every run and enumOk is evaluated on each; real conversions of the public enums are additionally sampled against the specification.",
+             note="Trusted: Lean kernel; tools/rust_enums.py + tools/wowm.py (syntax transcription; unknown shapes are rejected); native evaluation of enumOk in the quick tier; Rust harness.", ref="§4 C11"),
+ "C12": dict(cat="proof", tech="Lean 4 theorems about a verified bitwise equivalence checker (itemOk/bwEquiv) evaluated on every generated flag method + public-API correspondence",
+             text="Lean theorems (bwEquiv_sound and one *_sound theorem per method role) show that a `true` verdict of itemOk on a method body means the method is exactly the set-algebra operation the property demands for every raw value of the flag's width. The translator re-extracts every method of every generated flag type and synthesised flag struct (~6,500 bodies) from /repo on every run; the real methods and integer conversions of the public flag types are sampled against the specification. Two genuine defects are listed as known findings (clear_* uses reverse_bits; TryFrom<narrower signed> zero-extends negatives).",
+             note="Trusted: Lean kernel; tools/rust_flags.py + rustmini.py + wowm.py (syntax transcription; unreadable text becomes `unknown`, which the checker rejects); native evaluation of itemOk in the quick tier; Rust harness.", ref="§4 C12"),
 }
 NA_REASON = "not yet claimed: machinery for this property is still under construction (see DESIGN.md §7 order of construction)"
 
